@@ -362,3 +362,172 @@ Print Assumptions C02_fs_comp_exact.
 Print Assumptions C02_fs_comp_example_hyps.
 Print Assumptions C02_fs_comp_example_cut.
 Print Assumptions C02_fs_comp_example_ends.
+
+(* ---------- Tie A, decision logic (tools/src2v2.py -> gen/Src2.v): fail-safe readers: result arms of read_pass, mode switch of the decryptor, tag skipped by take(TAG_LENGTH) ---------- *)
+From MLA Require SrcTie2b SrcTie2Events.
+Check SrcTie2b.fs_result_arms_src.
+Theorem C02_tie_fs_result_arms_src : ltac:(let t := type of SrcTie2b.fs_result_arms_src in exact t).
+Proof. exact SrcTie2b.fs_result_arms_src. Qed.
+Print Assumptions C02_tie_fs_result_arms_src.
+Check SrcTie2b.fs_final_arms_src.
+Theorem C02_tie_fs_final_arms_src : ltac:(let t := type of SrcTie2b.fs_final_arms_src in exact t).
+Proof. exact SrcTie2b.fs_final_arms_src. Qed.
+Print Assumptions C02_tie_fs_final_arms_src.
+Check SrcTie2b.fs_reset_cache_src.
+Theorem C02_tie_fs_reset_cache_src : ltac:(let t := type of SrcTie2b.fs_reset_cache_src in exact t).
+Proof. exact SrcTie2b.fs_reset_cache_src. Qed.
+Print Assumptions C02_tie_fs_reset_cache_src.
+Check SrcTie2Events.enc_fs_read_arms.
+Theorem C02_tie_enc_fs_read_arms : ltac:(let t := type of SrcTie2Events.enc_fs_read_arms in exact t).
+Proof. exact SrcTie2Events.enc_fs_read_arms. Qed.
+Print Assumptions C02_tie_enc_fs_read_arms.
+Check SrcTie2Events.load_unauth_order.
+Theorem C02_tie_load_unauth_order : ltac:(let t := type of SrcTie2Events.load_unauth_order in exact t).
+Proof. exact SrcTie2Events.load_unauth_order. Qed.
+Print Assumptions C02_tie_load_unauth_order.
+Check SrcTie2Events.EV_fs_read_pass_shape.
+Theorem C02_tie_EV_fs_read_pass_shape : ltac:(let t := type of SrcTie2Events.EV_fs_read_pass_shape in exact t).
+Proof. exact SrcTie2Events.EV_fs_read_pass_shape. Qed.
+Print Assumptions C02_tie_EV_fs_read_pass_shape.
+Check SrcTie2Events.EV_load_in_cache_unauthenticated_shape.
+Theorem C02_tie_EV_load_in_cache_unauthenticated_shape : ltac:(let t := type of SrcTie2Events.EV_load_in_cache_unauthenticated_shape in exact t).
+Proof. exact SrcTie2Events.EV_load_in_cache_unauthenticated_shape. Qed.
+Print Assumptions C02_tie_EV_load_in_cache_unauthenticated_shape.
+(* ====================================================================================
+   THE WHOLE ARCHIVE, header included (work package hdrsrc; theories/ArchiveSrc.v,
+   ArchiveSrcRepair.v).  failsafe_repair = ArchiveFailSafeReader::from_config (header read
+   from the source with the code's reads: HeaderStream.read_header_s; load_persistent with the
+   reader's candidate keys; RawLayerFailSafeReader; EncryptionLayerFailSafeReader::new) +
+   convert_to_archive (Repair.repair), all over the SAME source.
+   The archive: ser_header (to_persistent cfg) ++ wire, wire = the block stream body bl ++
+   trailer (no layer) or what the encryption writer made of it, fed in any pieces (ENCRYPT);
+   C02_archive_write_shape: that is what Archive.archive_write produces without compression.
+   EVERY cut n, ANY source refining a cursor over the first n bytes (short reads on any
+   schedule), both decryption modes:
+     n inside the magic / version (n < 7)                     -> Err UnexpectedEof
+     n inside the persistent configuration / key-wrap table   -> Err DeserializationError
+     n >= header length                                       -> the result described by
+        C02_repair_cut_sound / C02_repair_encrypted_cut_sound (repair_sound_concl), or a wrapped
+        key's tag verifies under a wrapping key it was not made with (exhibited TagCollision).
+   Never Crash; fuel |plain| + TAG + 1 suffices.  The compression fail-safe layer is a parameter
+   of failsafe_repair that these layer combinations never reach.
+   Premise kept explicit: the writer's block stream is body bl ++ trailer for a well-formed
+   block list (ComposeWriterRun.clean_run_blocks gives it for the calls before finalize).
+   ==================================================================================== *)
+From MLA Require Import Format Ecies Archive ArchiveProofs HeaderStream ArchiveSrc ArchiveSrcRepair.
+
+Theorem C02_archive_cut_sound :
+  forall CHUNK TAG CIPHERBUF LIMIT FNMAX CACHE : N, FNMAX < 2 ^ 64 -> 0 < CACHE ->
+  forall TS TC TA TE : N, TS <> TC /\ TS <> TA /\ TS <> TE /\ TC <> TA /\ TC <> TE /\ TA <> TE ->
+  forall H : bytes -> bytes, (forall x, len (H x) = 32) -> 0 < CHUNK -> 0 < TAG ->
+  forall (pubk : bytes -> bytes) (dh : bytes -> bytes -> bytes) (kdf : bytes -> bytes)
+         (wenc wdec wtag : bytes -> bytes -> bytes) (ksf : bytes -> bytes -> N -> N -> N)
+         (tagf : bytes -> bytes -> N -> bytes -> bytes),
+  (forall k m, len m = 32 -> wdec k (wenc k m) = m) ->
+  forall (FsCompOver : Stream -> Stream) (fscomp_open : forall I : Stream, st I -> res (st (FsCompOver I)))
+         (cfg : wconfig),
+  wc_compress cfg = false ->
+  wf_enc_opt (to_persistent pubk dh kdf wenc wtag cfg) ->
+  config_size (to_persistent pubk dh kdf wenc wtag cfg) <= LIMIT ->
+  forall (bl : list block) (trailer : bytes), wf_blocks FNMAX H bl ->
+  In BEnd bl \/
+    trailer ++ (if wc_encrypt cfg
+                then junk CHUNK (ksf (wc_key cfg) (wc_nonce cfg)) (tagf (wc_key cfg) (wc_nonce cfg))
+                          (body TS TC TA TE bl ++ trailer)
+                else []) = [] ->
+  forall wire : bytes,
+  (if wc_encrypt cfg then
+     (forall i c, len (tagf (wc_key cfg) (wc_nonce cfg) i c) = TAG) /\
+     exists pieces fuelw es, concat pieces = body TS TC TA TE bl ++ trailer /\
+       ew_archive CHUNK CIPHERBUF (ksf (wc_key cfg) (wc_nonce cfg)) (tagf (wc_key cfg) (wc_nonce cfg)) fuelw pieces = Ok es /\
+       wire = ew_out es /\ len (ew_out es) / (CHUNK + TAG) + 2 <= 2 ^ 32
+   else wire = body TS TC TA TE bl ++ trailer) ->
+  forall (privs : list bytes) (s : bytes),
+  (wc_encrypt cfg = true ->
+     len (wc_key cfg) = 32 /\ dh s (pubk (wc_eph cfg)) = dh (wc_eph cfg) (pubk s) /\
+     In (pubk s) (wc_recipients cfg) /\ In s privs) ->
+  forall (n : N) (S0 : Stream) (R0 : st S0 -> N -> Prop) (s0 : st S0) (unauth : bool) (fuel : nat),
+  Refines S0 (takeN n (ser_header (to_persistent pubk dh kdf wenc wtag cfg) ++ wire)) R0 -> R0 s0 0 ->
+  (N.to_nat (len (body TS TC TA TE bl ++ trailer) + TAG) < fuel)%nat ->
+  let r := failsafe_repair CHUNK TAG LIMIT FNMAX CACHE TS TC TA TE H dh kdf wdec wtag ksf tagf S0
+             FsCompOver fscomp_open s0 privs unauth fuel in
+  (n < len (ser_header (to_persistent pubk dh kdf wenc wtag cfg)) ->
+     r = Err (if n <? 7 then EUnexpectedEof else EDeser)) /\
+  (len (ser_header (to_persistent pubk dh kdf wenc wtag cfg)) <= n ->
+     TagCollision pubk dh kdf wenc wtag (wc_eph cfg) (wc_key cfg) (wc_recipients cfg) privs \/
+     repair_sound_concl FNMAX TS TC TA TE H bl r).
+Proof. exact archive_cut_sound. Qed.
+
+(* what archive_write produces without compression is of that shape *)
+Theorem C02_archive_write_shape :
+  forall CHUNK CIPHERBUF BLOCK LIMIT FNMAX TS TC TA TE H order pubk dh kdf wenc wtag ksf tagf
+         cfg cut_top cut_mid ops a,
+  archive_write CHUNK CIPHERBUF BLOCK LIMIT FNMAX TS TC TA TE H order pubk dh kdf wenc wtag ksf tagf
+                cfg cut_top cut_mid ops = Ok a ->
+  wc_compress cfg = false ->
+  let hp := to_persistent pubk dh kdf wenc wtag cfg in
+  exists sf rs wire,
+    wrun FNMAX TS TC TA TE H order w_init (ops ++ [OFinalize]) = (sf, rs) /\ first_bad rs = Ok tt /\
+    config_size hp <= LIMIT /\ a = ser_header hp ++ wire /\
+    if wc_encrypt cfg then
+      exists pieces fuelw es, concat pieces = w_out sf /\
+        ew_archive CHUNK CIPHERBUF (ksf (wc_key cfg) (wc_nonce cfg)) (tagf (wc_key cfg) (wc_nonce cfg)) fuelw pieces = Ok es /\
+        wire = ew_out es
+    else wire = w_out sf.
+Proof. exact archive_write_shape. Qed.
+
+(* a cut inside the header of any well-formed header: which error the header stage reports *)
+Theorem C02_header_cut_error :
+  forall LIMIT h data n, wf_enc_opt h -> config_size h <= LIMIT -> n < len (ser_header h) ->
+    read_header LIMIT (takeN n (ser_header h ++ data)) = Err (if n <? 7 then EUnexpectedEof else EDeser).
+Proof. exact read_header_cut. Qed.
+
+(* non-vacuity: the layer-less archive of the example above behind its 9-byte header, read
+   2 bytes at a time: cut at 146 = 9 + 137 as C02_example_cut; cuts at 5 and 8 in the header *)
+Definition ax_cfg : wconfig := mkWC false false (fun x => x) [] [] [] [].
+Definition ax_dummy2 (_ m : bytes) : bytes := m.
+Definition ax_arch : bytes := ser_header (to_persistent (fun x => x) ax_dummy2 (fun x => x) ax_dummy2 ax_dummy2 ax_cfg) ++ ex_stream.
+Definition ax_run (n : N) :=
+  failsafe_repair 64 16 1000 48 4 0 1 254 255 ex_H ax_dummy2 (fun x => x) ax_dummy2 ax_dummy2
+    (fun _ _ => toy_ks) (fun _ _ => toy_tag 16) (Throttled (takeN n ax_arch))
+    (fun I => I) (fun I i => Ok i) (0, [2]) [] false 300.
+Example C02_archive_example :
+  len ax_arch = 194 /\
+  ax_run 5 = Err EUnexpectedEof /\ ax_run 8 = Err EDeser /\
+  (exists unfinished out, ax_run 146 = Ok (FEofNextBlock, unfinished, out) /\ w_final out = true).
+Proof.
+  split; [reflexivity|].
+  assert (Hall : forall n,
+    (n < 9 -> ax_run n = Err (if n <? 7 then EUnexpectedEof else EDeser)) /\
+    (9 <= n -> TagCollision (fun x => x) ax_dummy2 (fun x => x) ax_dummy2 ax_dummy2 [] [] [] [] \/
+               repair_sound_concl 48 0 1 254 255 ex_H ex_bl (ax_run n))).
+  { intros n.
+    exact (C02_archive_cut_sound 64 16 8 1000 48 4 ltac:(lia) ltac:(lia) 0 1 254 255
+             ltac:(repeat split; discriminate) ex_H ex_H_len ltac:(lia) ltac:(lia)
+             (fun x => x) ax_dummy2 (fun x => x) ax_dummy2 ax_dummy2 ax_dummy2 (fun _ _ => toy_ks) (fun _ _ => toy_tag 16)
+             ltac:(reflexivity) (fun I => I) (fun I i => Ok i) ax_cfg eq_refl I ltac:(vm_compute; discriminate)
+             ex_bl ex_trailer C02_example_wf (or_introl ex_bl_end) ex_stream eq_refl [] []
+             ltac:(discriminate) n (Throttled (takeN n ax_arch)) _ (0, [2]) false 300%nat
+             (throttled_refines _) ltac:(split; [reflexivity | apply N.le_0_l]) ltac:(vm_compute; lia)). }
+  split; [exact (proj1 (Hall 5) ltac:(lia))|]. split; [exact (proj1 (Hall 8) ltac:(lia))|].
+  destruct (proj2 (Hall 146) ltac:(lia)) as [Ht|(status & unf & out & obl & Hr & (Hfin & _) & _)].
+  - destruct Ht as (r & p & Hin & _). destruct Hin.
+  - assert (Hs : status = FEofNextBlock).
+    { assert (Hv : match ax_run 146 with Ok (s, _, _) => s = FEofNextBlock | _ => False end) by (vm_compute; reflexivity).
+      rewrite Hr in Hv. exact Hv. }
+    subst status. exists unf, out. auto.
+Qed.
+
+Print Assumptions C02_archive_cut_sound.
+Print Assumptions C02_archive_write_shape.
+Print Assumptions C02_header_cut_error.
+Print Assumptions C02_archive_example.
+
+(* Tie A: the order of the source reads of ArchiveHeader::from / writes of dump, from /repo *)
+From MLA Require SrcTieHeader.
+Theorem C02_tie_header_calls :
+  Src.HEADER_FROM_CALLS = SrcTieHeader.from_calls_model /\
+  Src.HEADER_FROM_SRC_USES = 3 /\
+  Src.HEADER_DUMP_CALLS = SrcTieHeader.dump_calls_model.
+Proof. exact SrcTieHeader.header_from_calls. Qed.
+Print Assumptions C02_tie_header_calls.
